@@ -182,7 +182,7 @@ func c11Codec(kind string, v jm) (enc func() ([]byte, error), dec func([]byte) (
 		}
 	case "dt_opaque":
 		enc = func() ([]byte, error) {
-			return verifapi.EncodeDatatypeMessage(&verifapi.DatatypeMessage{Class: 5, Version: 1, Size: uint32(gi(v, "size")), Properties: []byte(gs(gm(v, "tag"), "s"))})
+			return verifapi.EncodeDatatypeMessage(&verifapi.DatatypeMessage{Class: 5, Version: 1, Size: uint32(gi(v, "size")), Properties: []byte(opaqueTag(gm(v, "tag")))})
 		}
 		dec = func(b []byte) (jm, error) {
 			dt, err := verifapi.ParseDatatypeMessage(b)
@@ -190,7 +190,11 @@ func c11Codec(kind string, v jm) (enc func() ([]byte, error), dec func([]byte) (
 				return nil, err
 			}
 			tag := string(bytes.TrimRight(dt.Properties, "\x00"))
-			return jm{"class": int(dt.Class), "ver": int(dt.Version), "size": int(dt.Size), "bits": int(dt.ClassBitField), "tag": tag, "plen": len(dt.Properties)}, nil
+			taglen := len(tag)
+			if seed := gs(gm(v, "tag"), "s"); tag == opaqueTag(gm(v, "tag")) {
+				tag = seed // long tags are reported by their seed when they came back whole
+			}
+			return jm{"class": int(dt.Class), "ver": int(dt.Version), "size": int(dt.Size), "bits": int(dt.ClassBitField), "tag": tag, "taglen": taglen, "plen": len(dt.Properties)}, nil
 		}
 	case "dt_vlen":
 		enc = func() ([]byte, error) {
@@ -645,4 +649,13 @@ func c11One(c *c11Case) []lib.Ev {
 		ev["d"] = d
 	}
 	return []lib.Ev{{"op": "reset"}, ev}
+}
+
+// opaqueTag builds the tag of a model value: its string, or for tags longer than the string its seed repeated n times.
+func opaqueTag(t jm) string {
+	s, n := gs(t, "s"), gi(t, "n")
+	if n > len(s) {
+		return strings.Repeat(s[:1], n)
+	}
+	return s
 }
